@@ -31,8 +31,9 @@ LEVEL_TEXT = (
     "log of user-function calls."
 )
 LEVEL_NOTE = (
-    "In finite-difference modes the expected gradient is obtained by the harness calling SciPy's approx_derivative "
-    "with identical options, so the comparison is exact in all modes. The point alphabet has no NaN and no 0.0/-0.0 twins."
+    "In finite-difference modes the expected gradient is what a brand-new wrapper of the same implementation (same "
+    "options, nothing memoised) returns at the point, so the comparison is exact in all modes and judges staleness and "
+    "counting, not the differencing scheme (that is C16, not applicable). The point alphabet has no NaN and no 0.0/-0.0 twins."
 )
 TECHNIQUE = "deterministic simulation: stateful operation/fault histories against an executable memo-cell reference model (exhaustive short histories + seeded long ones)"
 DESIGN_REF = "DESIGN.md 4.9"
@@ -155,14 +156,6 @@ def run_history(mode, n, pseed, bounds_kind, fd_opts, ops, stats):
         finite_diff_rel_step=rel,
     )
     fd = mode != "callable"
-    fd_options = None
-    if fd:
-        fd_options = dict(
-            method="2-point" if mode is None else mode,
-            rel_step=None if mode is None else rel,
-            abs_step=eps if mode is None else None,
-            bounds=(lb, ub),
-        )
     # reference model: memo cell, counters, scale
     cell_x = x0.tobytes()
     has_f = False
